@@ -1,5 +1,6 @@
 import AlatorVerif.Lemmas.BrokerProps
 import AlatorVerif.Model.Client
+import AlatorVerif.Lemmas.BrokerSrvRefines
 /-!
 # C06 — order gatekeeping: valid orders forwarded exactly once; refusals are inert
 
@@ -30,6 +31,41 @@ theorem gatekeeping (b : Brk σ α) (srv : Srv σ α) (o : Order σ α) (q : Quo
 theorem accepted_touches_only_pending (v : Variant) (b : Brk σ α) (srv : Srv σ α) (o : Order σ α) (net : α)
     (h : WInv b srv net) : Frame b (sendOrder v b srv o).2.1 srv (sendOrder v b srv o).2.2 :=
   (sendOrder_inv v b srv o net h).2
+
+/-- **the exchange the broker's orders reach is a backtest of the shared server**: the single-backtest
+    server of the broker model is the view `Refine.absSrv a id` of backtest `id` of the generic `AppState`
+    model (the one C01 / C07 / C08 / C20 are proved on). A forwarded order's push onto the buffer is that
+    server's `insert_order` on `id`; the tick inside `check` is its `tick` on `id` (same `has_next`, trades and
+    admitted orders); the quotes `check` merges are its `fetch_quotes`; and requests on other backtests do
+    not move the view. So every statement of C04–C06 and C09–C12 about `PBk.Srv` is a statement about a
+    broker talking to one backtest of a server shared with any number of other clients -/
+theorem broker_server_is_a_backtest_of_the_shared_server
+    (a : Refine.UApp σ α) (id : Nat) (s : Srv σ α) (hs : Refine.absSrv a id = some s) (hr : Refine.Rows a id) :
+    (∀ o, (SV.insert SV.uistOps a id o).1 = true ∧
+        Refine.absSrv (SV.insert SV.uistOps a id o).2 id
+          = some { s with exch := { s.exch with buffer := s.exch.buffer ++ [o] } }) ∧
+    (∀ adm, (SV.tick SV.uistOps .repaired a id adm).1
+          = some ((s.tick adm).1.1, ((s.tick adm).1.2, (s.exch.tick (s.quotes s.date) adm).2.2))
+        ∧ Refine.absSrv (SV.tick SV.uistOps .repaired a id adm).2 id = some (s.tick adm).2
+        ∧ Refine.Rows (SV.tick SV.uistOps .repaired a id adm).2 id) ∧
+    (∃ q, SV.fetch a id = some (s.date, q) ∧ s.quotes s.date = q) ∧
+    (∀ j, j ≠ id → ∀ adm o k,
+        Refine.absSrv (SV.tick SV.uistOps .repaired a j adm).2 id = some s ∧
+        Refine.absSrv (SV.insert SV.uistOps a j o).2 id = some s ∧
+        Refine.absSrv (SV.delete SV.uistOps a j k).2 id = some s) :=
+  ⟨fun o => Refine.insert_refines a id s o hs,
+   fun adm => ⟨(Refine.tick_refines a id s adm hs hr).1, (Refine.tick_refines a id s adm hs hr).2,
+              Refine.tick_rows a id id adm hr⟩,
+   Refine.fetch_refines a id s hs hr,
+   fun j hj adm o k => by
+     obtain ⟨h1, h2, h3⟩ := Refine.other_backtests_do_not_move_the_view a id j hj adm o k
+     exact ⟨h1.trans hs, h2.trans hs, h3.trans hs⟩⟩
+
+/-- the hypothesis `Rows` is met by every backtest over a dataset built from a `Penelope` store whose clock
+    sits on a listed date (non-vacuity of the theorem above) -/
+theorem penelope_datasets_have_rows {Q : Type} (p : PPen.Pen σ α) (syms : List σ) (mk : List (PPen.Entry σ α) → Q) :
+    ∀ d ∈ (SV.Dataset.ofPen p syms mk).dates, (SV.Dataset.ofPen p syms mk).quotes d ≠ none :=
+  Refine.ofPen_rows p syms mk
 
 /-- **whichever conforming client carries it**: driven to completion (as the repaired code does), the
     forwarded order reaches the server exactly once, for eagerly executing and for lazily polled futures -/
